@@ -177,6 +177,26 @@ theorem retry_exhausted_witness :
     activeIds (runOps ⟨false, false, 5⟩ St.init [.keepr true 2 2 2, .flush]).1.hs = [0, 1] ∧
     (runOps ⟨false, false, 5⟩ St.init [.keepr true 2 2 2, .flush]).1.unit = [] := by decide
 
+/-! ### several connections alive in one process -/
+
+/-- **connections_independent**: whatever the interleaving of the operations of two connections
+(including one connection acting while a context block of the other is open), the joint state
+is the pair of the states each connection reaches on its own operations alone -/
+theorem connections_independent (cs : Cfg × Cfg) (h : List (Bool × Op)) (s : St × St) :
+    runJ cs s h = (foldOps cs.1 s.1 (projOps false h), foldOps cs.2 s.2 (projOps true h)) :=
+  runJ_proj cs h s
+
+/-- hence the invariant holds for both connections under any interleaving -/
+theorem agree_preserved_two_partial (cs : Cfg × Cfg) (h : List (Bool × Op))
+    (h1 : good cs.1 St.init (projOps false h) = true) (h2 : good cs.2 St.init (projOps true h) = true) :
+    Inv cs.1 (runJ cs (St.init, St.init) h).1 ∧ Inv cs.2 (runJ cs (St.init, St.init) h).2 := by
+  rw [connections_independent]
+  exact ⟨inv_foldOps _ _ (QM.inv_init _) h1, inv_foldOps _ _ (QM.inv_init _) h2⟩
+
+example : good ⟨false, false, 5⟩ St.init (projOps false
+    [(false, .new), (true, .ctx true 2 false ⟨1, .meas⟩), (false, .ctx false 2 false ⟨1, .meas⟩),
+     (true, .flush), (false, .flush)]) = true := by decide
+
 /-! ### counter-examples: the full statement is false for the code (open findings) -/
 
 /-- F12 (fixed): two `create_context(number=3)` blocks on five qubits now run: after each block
